@@ -1,5 +1,6 @@
 import FxVerif.Proofs.C11Tx
 import FxVerif.Proofs.C11Exact
+import FxVerif.Proofs.C11Chain
 /-!
 # C11 — transferring delegation shares conserves shares, stake and reward entitlements
 
@@ -253,9 +254,12 @@ theorem exec_inv {c : FxVerif.Gen.C11.Cfg} (hg : good c = true) {s s' : State} {
     · cases h; exact ⟨hi, rfl⟩
   | transfer f t v x =>
     simp only [State.exec] at h
+    rw [transferTx_eq hg] at h
     exact transferOp_inv hg hi h
   | transferFrom sp f t v x =>
     simp only [State.exec] at h
+    rw [transferFromTx_eq hg] at h
+    simp only [State.transferFromRef] at h
     split at h
     · cases h
     · split at h
@@ -409,7 +413,9 @@ theorem allowance_exact {s s' : State} {sp f t v x : Nat} (h : s.exec cfg (.tran
   generalize cfg = c
   intro h hg
   obtain ⟨-, -, -, -, -, -, -, -, -, -, -, g12, g13, -⟩ := good_fields hg
-  simp only [State.exec, g12, g13, Bool.true_and, decide_eq_true_eq, if_true] at h
+  simp only [State.exec] at h
+  rw [transferFromTx_eq hg] at h
+  simp only [State.transferFromRef, g12, g13, Bool.true_and, decide_eq_true_eq, if_true] at h
   split at h
   · cases h
   · split at h
@@ -688,11 +694,14 @@ theorem transfer_never_breaks_bookkeeping (nAcc h0 : Nat) (vals : List (Nat × N
   constructor
   · intro h
     simp only [State.exec] at h
+    rw [transferTx_eq cfg_good] at h
     exact transferOp_refusal hi h
   · intro h
     have hg := cfg_good
     obtain ⟨-, -, -, -, -, -, -, -, -, -, -, g12, g13, -⟩ := good_fields hg
     simp only [State.exec] at h
+    rw [transferFromTx_eq hg] at h
+    simp only [State.transferFromRef] at h
     split at h
     · cases h; exact Or.inl rfl
     · split at h
@@ -785,10 +794,13 @@ theorem transfer_leaves_chain_unchanged {s s' : State} {sp f t v x : Nat} :
   constructor
   · intro h
     simp only [State.exec] at h
+    rw [transferTx_eq cfg_good] at h
     obtain ⟨a1, a2, a3, a4, a5, a6, a7, a8, a9, a10, a11, a12, a13, rf, rt, b1, b2, b3⟩ := transferOp_frame cfg_good h
     exact ⟨⟨a1, a2, a3, a4, a5, a6, a7, a8, a10, a11, a12, a13, rf, rt, b1, b3, b2⟩, a9⟩
   · intro h
     simp only [State.exec] at h
+    rw [transferFromTx_eq cfg_good] at h
+    simp only [State.transferFromRef] at h
     split at h
     · cases h
     · split at h
@@ -799,6 +811,66 @@ theorem transfer_leaves_chain_unchanged {s s' : State} {sp f t v x : Nat} :
           · cases h
           · obtain ⟨a1, a2, a3, a4, a5, a6, a7, a8, a9, a10, a11, a12, a13, rf, rt, b1, b2, b3⟩ := transferOp_frame cfg_good h
             exact ⟨a1, a2, a3, a4, a5, a6, a7, a8, a10, a11, a12, a13, rf, rt, b1, b3, b2⟩
+
+/-! ### the two Run methods as written: regenerated native actions, interpreted by `State.exec` -/
+
+/-- **run_methods_as_written.**  `State.exec` INTERPRETS the statement lists `cfg.runTransfer` / `cfg.runFrom` that
+`go/extract/c11run.go` regenerates from the closures `TransferShares.Run` / `TransferFromShares.Run` hand to
+`ExecuteNativeAction` (which call, for whom, with which validator and amount, whether its error is handed back, in which
+order, under which condition).  For the code as it is now this interpretation IS: `transferShares` = the handler run for
+`contract.Caller()`; `transferFromShares` = the allowance of `(validator, args.From, caller)` is checked and decremented
+FIRST and UNCONDITIONALLY (also when `from == to`, also when the handler later moves nothing), THEN the handler runs for
+`args.From`.  Every theorem of this file about `.transfer` / `.transferFrom` goes through this equation, so a call that is
+wrapped in a condition, dropped, reordered, made for another party or whose error is swallowed breaks `cfg_good`. -/
+theorem run_methods_as_written (s : State) (sp f t v x : Nat) :
+    s.exec cfg (.transfer f t v x) = s.transferOp cfg f t v x ∧
+    s.exec cfg (.transferFrom sp f t v x) = s.transferFromRef cfg sp f t v x :=
+  ⟨by simp only [State.exec]; exact transferTx_eq cfg_good s f t v x,
+   by simp only [State.exec]; exact transferFromTx_eq cfg_good s sp f t v x⟩
+
+/-- **transferFrom_needs_allowance.**  Whatever the state, the parties (`from == to` included) and whatever the handler
+would do: `transferFromShares` of more shares than the spender's allowance fails (and is reverted as a whole). -/
+theorem transferFrom_needs_allowance {s : State} {sp f t v x : Nat} (h : s.allow v f sp < x) :
+    ∃ e, s.exec cfg (.transferFrom sp f t v x) = .error e ∧ (e = .badArgs ∨ e = .allowance) := by
+  have hg := cfg_good
+  rw [(run_methods_as_written s sp f t v x).2]
+  revert hg
+  generalize cfg = c
+  intro hg
+  obtain ⟨-, -, -, -, -, -, -, -, -, -, -, g12, g13, -⟩ := good_fields hg
+  simp only [State.transferFromRef, g12, g13, Bool.true_and, decide_eq_true_eq, if_true]
+  split
+  · exact ⟨_, rfl, Or.inl rfl⟩
+  · split
+    · exact ⟨_, rfl, Or.inl rfl⟩
+    · first
+        | exact ⟨_, rfl, Or.inr rfl⟩
+        | (rw [if_pos h]; exact ⟨_, rfl, Or.inr rfl⟩)
+
+/-- **transferFrom_self_consumes_allowance.**  A successful `transferFromShares` with `from == to` changes nothing but the
+spender's allowance: every validator record (delegations, starting infos, reference counts, rewards) and every account's
+gains are as before, while the allowance was sufficient and went down by exactly `x` — a spender cannot use a
+self-transfer to act without, or to keep, its allowance. -/
+theorem transferFrom_self_consumes_allowance {s s' : State} {sp d v x : Nat}
+    (h : s.exec cfg (.transferFrom sp d d v x) = .ok s') :
+    (∀ w, s'.vs w = s.vs w) ∧ (∀ a, s'.gain a = s.gain a) ∧ x ≤ s.allow v d sp ∧ s'.allow v d sp = s.allow v d sp - x := by
+  obtain ⟨hle, hal, _⟩ := allowance_exact h
+  obtain ⟨_, _, _, hw, v', rf, rt, ht, hv'⟩ := transferFrom_exec cfg_good h
+  obtain ⟨hvv, hrf, hrt⟩ := transfer_self cfg_good ht
+  have hfr := (transfer_leaves_chain_unchanged (sp := sp)).2 h
+  refine ⟨?_, ?_, hle, hal⟩
+  · intro w
+    by_cases hwv : w = v
+    · subst hwv; rw [hv', hvv]
+    · exact hw w hwv
+  · obtain ⟨_, _, _, _, _, _, _, _, _, _, _, _, rf', rt', _, hpaid, hgain⟩ := hfr
+    have hp : (s'.vs v).paid = (s.vs v).paid := by rw [hv', hvv]
+    have h0 : rf' + rt' = 0 := by omega
+    have hrf' : rf' = 0 := by omega
+    have hrt' : rt' = 0 := by omega
+    intro a
+    rw [hgain, hrf', hrt']
+    by_cases e : a = d <;> simp [setAt, e]
 
 /-! ### transactions that make several precompile calls; partial maturity -/
 
@@ -926,6 +998,52 @@ theorem sanity_closed_form {v : VS} {evs : List SlashEv} {T0 sp st sh : Nat} (hS
 theorem starting_stake_tight (v : VS) (sh : Nat) : v.tokensFromSharesTrunc sh * v.shares ≤ sh * v.tokens * ONE :=
   tfsTrunc_tight v sh
 
+/-! ### the closed form connected to the model's own steps -/
+
+/-- **tight_chain_never_fails_sanity** — the closed form of round 4 (`sanity_closed_form`, over an abstract chain of
+slashes) connected to the functions `State.exec` runs.  Take the record `v` of validator `w` after ANY history from
+genesis, at height `h`, and suppose every delegator's stake is tight there (`TightV`: the stake the slash loop recomputes
+is at most the exact token worth of the shares — true at genesis: `genesis_is_tight`; nothing is stamped with a future
+height).  Then after ANY chain (`TightSteps`, any length, any interleaving) of
+ · slashes by the model's `VS.slash` — distribution hook, period bookkeeping, event appended, tokens burnt — whose recorded
+   fraction is exact (`slashExact`; `slash_fraction_closed_form`: always within 10⁻³⁶, exact whenever digits 19…36 of the
+   quotient are not all zero),
+ · reward allocations, successful reward withdrawals, successful delegations (staking `Delegate` with its hooks: truncated
+   shares are issued, which does not lower anybody else's worth),
+ · successful share transfers between two accounts through the INTERPRETED body of `handlerTransferShares` (`cfg.prog`: the
+   two hand-written starting infos are tight) and
+ · passing blocks / status changes,
+the SDK's stake sanity check cannot fire for any delegator, and every delegator can withdraw its rewards (the delegation
+stays).  What such a chain may NOT contain — and why no invariant over all of `State.run` exists — is `Undelegate` /
+`BeginRedelegation` at this validator (the tokens handed out are ROUNDED, which can lower the worth of the remaining
+shares by < 10⁻¹⁸ relative) and inexact slashes (`stake_sanity_reachable`). -/
+theorem tight_chain_never_fails_sanity (nAcc h0 : Nat) (vals : List (Nat × Nat)) (hv : vals.length ≤ nAcc) (ops : List Op)
+    {w : Nat} (hw : w < vals.length) {h h' : Nat} {v' : VS}
+    (ht : TightV (reachVS nAcc h0 vals ops w)) (hn : NotFuture (reachVS nAcc h0 vals ops w) h)
+    (hs : TightSteps cfg nAcc (reachVS nAcc h0 vals ops w) h v' h') (hS : 0 < v'.shares) (d : Nat) :
+    v'.sanityFires h' d = false ∧
+    (∀ sh, d < nAcc → v'.del d = some sh → ∃ v'' c, v'.withdrawMsg h' d = .ok (v'', c) ∧ v''.del d = some sh) := by
+  have hi : VInv nAcc (reachVS nAcc h0 vals ops w) := reach_SInv cfg_good nAcc h0 vals hv ops hw
+  obtain ⟨hi', ht', hn'⟩ := tight_steps_invariant cfg_good hs hi ht hn
+  have hns := tight_no_sanity ht' hn' hS d
+  refine ⟨hns, ?_⟩
+  intro sh hd hdel
+  obtain ⟨si, hsi⟩ := Dom_sinfo_some hi'.dom hdel
+  rcases withdrawMsg_total hi'.ri hi'.dom (h := h') hd hdel with hE | ⟨v'', c, hw', _, _, _, _, _, _, sf⟩
+  · have hwr := (withdrawRewards_sanity hi'.ri (h := h') hdel hsi).mp (withdrawMsg_sanity_imp hE)
+    rw [hns] at hwr; cases hwr
+  · exact ⟨v'', c, hw', by rw [sf.1]; exact hdel⟩
+
+/-- **genesis_is_tight.**  The hypothesis of `tight_chain_never_fails_sanity` holds at genesis for every validator -/
+theorem genesis_is_tight (nAcc h0 : Nat) (vals : List (Nat × Nat)) {w : Nat} (hw : w < vals.length) (h : Nat) :
+    TightV (reachVS nAcc h0 vals [] w) ∧ NotFuture (reachVS nAcc h0 vals [] w) h := by
+  have e : reachVS nAcc h0 vals [] w = genesisVS w (vals[w]'hw).1 (vals[w]'hw).2 := by
+    show (init nAcc h0 vals).vs w = _
+    simp only [init]
+    rw [List.getElem?_eq_getElem hw]
+  rw [e]
+  exact genesis_tight _ _ _ _
+
 /-! ### non-vacuity: the hypotheses are satisfiable on concrete, non-trivial histories -/
 
 /-- a history with a new recipient, an existing recipient, a full transfer, a slash and a self-transfer -/
@@ -1049,5 +1167,35 @@ example : incrPeriods 2 [⟨3, 5, effFraction 50000 1000000⟩, ⟨7, 9, effFrac
   ⟨by decide, by decide, trivial⟩
 example : quot36 333 950000 % ONE ≠ 0 ∧ effFraction 50000 1000000 = 50000000000000000 ∧ slashExact 50000 1000000 = true := by decide
 example : slashExact 100 (100000000000000000000 - 99) = false := by decide
+
+-- run_methods_as_written / transferFrom_needs_allowance / transferFrom_self_consumes_allowance: a spender with an allowance of
+-- 70 makes a self-transfer of account 1 (succeeds, the allowance is used up, the delegation is untouched); without an
+-- allowance the same call is refused
+example : isOk (((init 4 1 [(1000, 0)]).run cfg [.delegate 1 0 500, .approve 1 3 0 70, .block]).exec cfg (.transferFrom 3 1 1 0 70)) = true := by
+  decide
+example : ((init 4 1 [(1000, 0)]).run cfg [.delegate 1 0 500, .approve 1 3 0 70, .block, .transferFrom 3 1 1 0 70]).allow 0 1 3 = 0 ∧
+    (((init 4 1 [(1000, 0)]).run cfg [.delegate 1 0 500, .approve 1 3 0 70, .block, .transferFrom 3 1 1 0 70]).vs 0).del 1 = some (500 * ONE) := by
+  decide
+example : ((init 4 1 [(1000, 0)]).run cfg [.delegate 1 0 500, .block]).allow 0 1 3 < 70 ∧
+    isOk (((init 4 1 [(1000, 0)]).run cfg [.delegate 1 0 500, .block]).exec cfg (.transferFrom 3 1 1 0 70)) = false := by
+  decide
+
+-- tight_chain_never_fails_sanity / genesis_is_tight: from genesis (2000 coins of 10^18 base units = power 20), a chain with
+-- an exact slash by the model's VS.slash (power 1, 5 %: burns 5·10^18 of 2·10^21, fraction 0.0025 exactly), an allocation
+-- and three blocks; the record then carries one slash event and fewer tokens, shares stay positive
+example : ∃ v' h', TightSteps cfg 4 (reachVS 4 1 [(2000000000000000000000, 0)] [] 0) 1 v' h' ∧ 0 < v'.shares ∧
+    v'.slashes.length = 1 ∧ v'.tokens = 1995000000000000000000 ∧ h' = 4 :=
+  ⟨_, _, .slash 1 50000000000000000 (by decide) (.alloc 77 (.blocks 3 true false false 0 (.refl _ _))),
+   by decide, by decide, by decide, rfl⟩
+-- … and a chain that also contains a delegation (account 1 bonds 500 coins after the slash: shares are issued at the
+-- slashed rate, truncated) and a withdrawal of the operator
+example : ∃ v' h', TightSteps cfg 4 (reachVS 4 1 [(2000000000000000000000, 0)] [] 0) 1 v' h' ∧
+    v'.tokens = 2495000000000000000000 ∧ (v'.del 1).isSome = true ∧ v'.slashes.length = 1 :=
+  ⟨_, _, .slash 1 50000000000000000 (by decide)
+      (.delegate 1 500000000000000000000 0 (by decide) (by decide) (by decide) rfl
+        (.blocks 1 true false false 0 (.withdraw 0 0 (by decide) rfl (.refl _ _)))),
+   by decide, by decide, by decide⟩
+example : slashExact (min (dMul (1 * POWER_REDUCTION * ONE) 50000000000000000 / ONE) 2000000000000000000000) 2000000000000000000000 = true := by
+  decide
 
 end FxVerif.Props.C11
